@@ -13,7 +13,7 @@ for i in $(seq 0 $((N-1))); do
   git -C $L/repo checkout -q -- . 
   sed -i "s#path = \"/repo\"#path = \"$L/repo\"#" $L/verif/harness/Cargo.toml
   sed -i "s#\"/repo/src/#\"$L/repo/src/#" $L/verif/check
-  ( cd $L/verif && REGRESS_REPO=$L/repo REGRESS_VERIF=$L/verif python3 tools/regress_seeds.py --part=$i/$N > "$OUT/lane$i.log" 2>&1 ) &
+  ( cd $L/verif && REGRESS_REPO=$L/repo REGRESS_VERIF=$L/verif python3 tools/regress_seeds.py $REGRESS_FLAGS --part=$i/$N > "$OUT/lane$i.log" 2>&1 ) &
 done
 wait
 cat "$OUT"/lane*.log | grep -E "caught|MISSED|APPLY|no check" | sort > "$OUT/all.log"
